@@ -122,6 +122,116 @@ def programs():
     return prelude, cases
 
 
+NUM = ["nat", "int", "float"]
+# uses of one value inside ONE basic block; a0: nat, a1: int, i = int alias of a0 (implicit, a no-op), k = int(a0)
+USES = {   # name: (statement template with {u}, parameter the value comes from, static source type, target type)
+    "Fi": ("{u}: float = i", 0, "int", "float"),
+    "Fn": ("{u}: float = a0", 0, "nat", "float"),
+    "Fn2": ("{u}: float = a0", 0, "nat", "float"),
+    "Fj": ("{u}: float = a1", 1, "int", "float"),
+    "Fk": ("{u}: float = k", 0, "int", "float"),
+    "Gi": ("{u} = g_float(i)", 0, "int", "float"),
+    "Gn": ("{u} = g_float(a0)", 0, "nat", "float"),
+    "In": ("{u}: int = a0", 0, "nat", "int"),
+    "Bn": ("{u} = a0 + 0.5", 0, "nat", "float"),
+    "Bi": ("{u} = i * 1.5", 0, "int", "float"),
+    "Bj": ("{u} = 2.5 - a1", 1, "int", "float"),
+}
+
+
+def multi_programs(r, quick):
+    import itertools
+    names = list(USES)
+    seqs = [list(p) for p in itertools.permutations(names, 2)]
+    triples = [list(p) for p in itertools.permutations(names, 3)]
+    r.shuffle(triples)
+    seqs += triples[:60 if quick else 500]
+    seqs += [["Fi", "Fn", "Fj", "Gn", "Gi", "Bn", "Bi"], ["Fn", "Fi", "Gi", "Gn", "Bi", "Bn", "Fk"], ["Gn", "Bi", "Fn", "Fi", "Fk", "In", "Bj"]]
+    out = []
+    for seq in seqs:
+        body = ["i: int = a0", "k = int(a0)"]
+        outs, rets = [], []
+        for n, u in enumerate(seq):
+            tmpl, par, src, tgt = USES[u]
+            body.append(tmpl.format(u=f"u{n}"))
+            outs.append({"use": u, "param": par, "src": src, "tgt": tgt})
+            rets.append(tgt)
+        body.append("return (" + ", ".join(f"u{n}" for n in range(len(seq))) + ")")
+        out.append({"id": "Multi:" + ">".join(seq), "pos": "Multi", "params": "a0: nat, a1: int", "ret": f"tuple[{', '.join(rets)}]",
+                    "body": body, "outs": outs})
+    return out
+
+
+GEN_PRELUDE = ["from typing import Generic", "from guppylang.std.builtins import array",
+               "T = guppy.type_var('T', copyable=True, droppable=True)",
+               "@guppy", "def both(p: tuple[T, T]) -> tuple[T, T]:", "    return p",
+               "@guppy", "def both3(p: tuple[T, T, T]) -> tuple[T, T, T]:", "    return p",
+               "@guppy", "def pair(a: T, b: T) -> tuple[T, T]:", "    return (a, b)",
+               "@guppy", "def triple(a: T, b: T, c: T) -> tuple[T, T, T]:", "    return (a, b, c)",
+               "@guppy.struct", "class S(Generic[T]):", "    a: T", "    b: T"]
+
+
+def generic_programs():
+    import itertools
+    out = []
+
+    def add(fam, flag, elts, r, body, ret):
+        params = ", ".join(f"a{k}: {t}" for k, t in enumerate(elts))
+        out.append({"id": f"{fam}:{'-'.join(elts)}:{r}", "pos": "Gen", "fam": fam, "flag": flag, "elts": list(elts), "exp": r,
+                    "params": params, "ret": ret, "body": body})
+
+    for a, b in itertools.product(NUM, NUM):
+        for r in NUM:
+            add("GTuple", "tuple", (a, b), r, [f"t: tuple[{r}, {r}] = both((a0, a1))", "return t"], f"tuple[{r}, {r}]")
+            add("GTupleRet", "tuple", (a, b), r, ["return both((a0, a1))"], f"tuple[{r}, {r}]")
+            add("GArgs", "args", (a, b), r, [f"t: tuple[{r}, {r}] = pair(a0, a1)", "return t"], f"tuple[{r}, {r}]")
+            add("GStruct", "args", (a, b), r, [f"s: S[{r}] = S(a0, a1)", "return (s.a, s.b)"], f"tuple[{r}, {r}]")
+            add("GNested", "tuple", (a, b), r, [f"t: tuple[tuple[{r}, bool], tuple[{r}, bool]] = both(((a0, True), (a1, False)))", "return t"],
+                f"tuple[tuple[{r}, bool], tuple[{r}, bool]]")
+            add("GArray", "tuple", (a, b), r, ["s = array(a0, a1)", "return s"], f"array[{r}, 2]")
+    for a, b, c in itertools.product(NUM, NUM, NUM):
+        for r in NUM:
+            add("GTuple3", "tuple", (a, b, c), r, [f"t: tuple[{r}, {r}, {r}] = both3((a0, a1, a2))", "return t"], f"tuple[{r}, {r}, {r}]")
+            add("GArgs3", "args", (a, b, c), r, ["return triple(a0, a1, a2)"], f"tuple[{r}, {r}, {r}]")
+    return out
+
+
+def finish_cases(cases, extra):
+    """give the Multi / Gen cases function names and sources"""
+    for c in extra:
+        i = len(cases)
+        c["fn"] = f"f{i}"
+        c["src"] = ["@guppy", f"def f{i}({c['params']}) -> {c['ret']}:"] + ["    " + b for b in c["body"]]
+        c.setdefault("act", "")
+        c.setdefault("exp", "")
+        cases.append(c)
+
+
+def chains_to_params(trees, nparams):
+    """for every parameter a_k: the unary ops wrapped directly around its (unique) occurrence in the output trees
+    -> ({k: [[ops] per occurrence in output order]}, error)"""
+    occ = {k: [] for k in range(nparams)}
+
+    def walk(t, chain):
+        t = t.strip()
+        m = re.fullmatch(r"a(\d+)", t)
+        if m:
+            occ[int(m.group(1))].append(chain[::-1])
+            return
+        m = re.match(r"([\w.]+)\((.*)\)(#\d)?$", t, re.S)
+        if not m:
+            return                       # constant
+        args = split_top(m.group(2))
+        if len(args) == 1 and m.group(1) != "tuple":
+            walk(args[0], chain + [m.group(1)])
+        else:
+            for a in args:
+                walk(a, [])
+    for t in trees:
+        walk(t, [])
+    return occ
+
+
 def split_top(s):
     parts, depth, cur = [], 0, ""
     for ch in s:
@@ -234,6 +344,31 @@ def model_table(ctx):
     return tab
 
 
+def model_generic(ctx):
+    """{(flag, elts, ret): [['A', T], chain0, chain1, ...] | [['R']] | [['C']]} for element lists of length 2 and 3"""
+    body = ["From Coq Require Import ZArith String List.", "From V.C04 Require Import NumBase.",
+            "From V.C16 Require Import ModelBase GenCoerce ModelCoerce.",
+            "Import ListNotations. Open Scope string_scope.",
+            'Definition sh (h : hop) : string := match h with HOp e n => e ++ "." ++ n | HOpaque => "?" end.',
+            'Definition tn (t : gty) : string := match t with TNat => "nat" | TInt => "int" | TFloat => "float" | TBool => "bool" end.',
+            'Definition enc (o : gen_outcome) : list (list string) := match o with GAccept t cs => ["A"; tn t] :: map (map sh) cs | GReject => [["R"]] | GCrash => [["C"]] end.',
+            "Definition tys := [TNat; TInt; TFloat].",
+            "Definition l2 := flat_map (fun a => map (fun b => [a; b]) tys) tys.",
+            "Definition l3 := flat_map (fun a => map (fun l => a :: l) l2) tys.",
+            "Definition tab (f : bool) := map (fun l => map (fun r => enc (generic_outcome f l r)) tys) (l2 ++ l3).",
+            "Eval vm_compute in (tab gen_tuple_elems_substituted, tab gen_args_substituted)."]
+    out = ctx.coq_eval("gtable", "\n".join(body))
+    val = vlib.parse_coq_values(out)[0]
+    import itertools
+    lists = [list(x) for x in itertools.product(NUM, NUM)] + [list(x) for x in itertools.product(NUM, NUM, NUM)]
+    tab = {}
+    for flag, t in zip(("tuple", "args"), val):
+        for l, row in zip(lists, t):
+            for r, cell in zip(NUM, row):
+                tab[(flag, tuple(l), r)] = cell
+    return tab
+
+
 def round_values(r, n):
     vals = [0, 1, -1, 2, 3, (1 << 53) - 1, 1 << 53, (1 << 53) + 1, (1 << 53) + 2, (1 << 53) + 3, (1 << 54) + 2, (1 << 54) + 6,
             H64 - 1, H64, H64 + 1, H64 + 1024, H64 + 1025, H64 + 3072, M64 - 1, M64 - 1024, M64 - 1025, M64 - 2048, -H64, -H64 + 1,
@@ -329,14 +464,17 @@ def run(ctx):
     r = vlib.rng(ctx.seed, "C16")
     real_ctx, ctx_r = ctx, Capped(ctx)
     prelude, cases = programs()
+    prelude = prelude + GEN_PRELUDE
+    finish_cases(cases, multi_programs(r, ctx.quick) + generic_programs())
     impl = json.loads(ctx.impl("impl_coerce.py", {"prelude": prelude, "cases": [{"id": c["id"], "src": c["src"], "fn": c["fn"]} for c in cases]}))
     ws = words(ctx, r)
 
     # ---- model side
-    model, model_err = None, None
+    model, gmodel, model_err = None, None, None
     if info["ok"]:
         try:
             model = model_table(ctx)
+            gmodel = model_generic(ctx)
         except RuntimeError as e:
             model_err = str(e)[-800:]
             ctx.notes.append("model evaluation failed: " + model_err)
@@ -359,6 +497,102 @@ def run(ctx):
             found += 1
             ctx_r.report(f"crash:{c['id']}", "counterexample", "the compiler crashes instead of accepting or rejecting",
                        {"case": c["id"], "error": rec["error"], **replay_text(ctx, prelude, c)})
+            continue
+        if pos == "Multi":
+            # several coercions in one basic block: every use must carry the ops of ITS OWN source type,
+            # whatever was compiled before it
+            if st != "ok":
+                found += 1
+                ctx_r.report(f"reject:{c['id']}", "counterexample", "a block of widening coercions is rejected",
+                           {"case": c["id"], "error": rec["error"], **replay_text(ctx, prelude, c)})
+                continue
+            trees = rec["trees"] or []
+            if len(trees) != len(c["outs"]):
+                mismatches += 1
+                ctx_r.report(f"tree:{c['id']}", "correspondence", "multi-use block lowered to an unexpected shape",
+                           {"case": c["id"], "trees": trees, "error": rec["error"]}, found_input=False)
+                continue
+            for n, (o, t) in enumerate(zip(c["outs"], trees)):
+                occ = chains_to_params([t], 2)
+                if len(occ[o["param"]]) != 1 or occ[1 - o["param"]]:
+                    mismatches += 1
+                    ctx_r.report(f"tree:{c['id']}:u{n}", "correspondence", "use lowered to an unexpected shape",
+                               {"case": c["id"], "use": o, "tree": t}, found_input=False)
+                    continue
+                chain = occ[o["param"]][0]
+                bad_w = None
+                for w in ws:
+                    v = mval(o["src"], w)
+                    if not representable(o["tgt"], v):
+                        continue
+                    value_evals += 1
+                    bad = value_wrong(o["tgt"], v, eval_chain(chain, w))
+                    if bad:
+                        bad_w = (w, v, bad)
+                        break
+                if bad_w:
+                    found += 1
+                    w, v, bad = bad_w
+                    ctx_r.report(f"value:{c['id']}:u{n}:{w}", "counterexample",
+                               f"use u{n} ({o['use']}): implicit {o['src']} -> {o['tgt']} coercion inside a block with other coercions changes the value",
+                               {"case": c["id"], "use": USES[o['use']][0].format(u='u' + str(n)), "static_source_type": o["src"],
+                                "operand": f"a{o['param']} = word {w} (value {v} as {o['src']})", "ops_applied": chain,
+                                "expected": str(float(v) if o["tgt"] == "float" else v), "observed": str(eval_chain(chain, w)), "why": bad,
+                                "trees": trees, **replay_text(ctx, prelude, c)})
+                if model is not None:
+                    mc = model[("PAnnAssign", o["src"], o["tgt"])]
+                    if mc != ["A"] + chain:
+                        mismatches += 1
+                        ctx_r.report(f"chain:{c['id']}:u{n}", "correspondence", "ops of one use differ from the model (each use = its own check_type_against)",
+                                   {"case": c["id"], "use": o, "model": mc, "implementation": chain, "trees": trees,
+                                    **replay_text(ctx, prelude, c)}, found_input=False)
+            if len(samples) < 10 and len(c["outs"]) == 7:
+                samples.append({"case": c["id"], "tree": trees})
+            continue
+        if pos == "Gen":
+            # one type variable meeting several expressions
+            elts, e = c["elts"], c["exp"]
+            must_reject = any(not (a == e or widens(a, e)) for a in elts)
+            if st == "ok" and must_reject:
+                found += 1
+                badel = [a for a in elts if not (a == e or widens(a, e))]
+                ctx_r.report(f"accept:{c['id']}", "counterexample",
+                           f"{'/'.join(badel)} expression accepted where the type variable is solved to {e}: implicit narrowing",
+                           {"case": c["id"], "family": c["fam"], "elements": elts, "expected": e, "trees": rec["trees"], **replay_text(ctx, prelude, c)})
+                continue
+            chains = None
+            if st == "ok":
+                occ = chains_to_params(rec["trees"] or [], len(elts))
+                if any(len(occ[k]) != 1 for k in range(len(elts))):
+                    mismatches += 1
+                    ctx_r.report(f"tree:{c['id']}", "correspondence", "generic position lowered to an unexpected shape",
+                               {"case": c["id"], "trees": rec["trees"], "error": rec["error"]}, found_input=False)
+                else:
+                    chains = [occ[k][0] for k in range(len(elts))]
+                    for k, a in enumerate(elts):
+                        for w in ws if a in ("nat", "int") else []:
+                            v = mval(a, w)
+                            if not representable(e, v):
+                                continue
+                            value_evals += 1
+                            bad = value_wrong(e, v, eval_chain(chains[k], w))
+                            if bad:
+                                found += 1
+                                ctx_r.report(f"value:{c['id']}:a{k}:{w}", "counterexample", f"element a{k}: implicit {a} -> {e} coercion changes the value",
+                                           {"case": c["id"], "operand": f"a{k} = word {w} (value {v} as {a})", "ops_applied": chains[k],
+                                            "expected": str(float(v) if e == "float" else v), "observed": str(eval_chain(chains[k], w)),
+                                            "why": bad, "trees": rec["trees"], **replay_text(ctx, prelude, c)})
+                                break
+            if gmodel is not None:
+                mc = gmodel[(c["flag"], tuple(elts), e)]
+                ic = [["A", e]] + chains if chains is not None else ([["R"]] if st == "rejected" else None)
+                if ic is not None and mc != ic:
+                    mismatches += 1
+                    ctx_r.report(f"chain:{c['id']}", "correspondence", "model and compiler disagree on a generic position",
+                               {"case": c["id"], "model": mc, "implementation": ic, "trees": rec["trees"], "error": rec["error"],
+                                **replay_text(ctx, prelude, c)}, found_input=False)
+            if len(samples) < 14 and st == "ok" and len(set(elts)) > 1:
+                samples.append({"case": c["id"], "tree": rec["trees"]})
             continue
         if pos == "Bin":
             # operands of a binary operator: accepted for every numeric pair; each operand carries the chain of
@@ -490,8 +724,8 @@ def run(ctx):
          "ModelCoerce.position_outcome: which syntactic positions reach check_type_against is hand-written, tied only by the differential harness",
          "tools/repo_shim.py; props/C04/impl_ops.py Extract (reads op trees out of the HUGR)"],
         evaluations=len(cases) + value_evals + len(mr),
-        distinct_nontrivial=sum(1 for c in cases if c["act"] != c["exp"]),
-        rule="programs = one @guppy function per (position, actual, expected) over 9 positions x {nat,int,float,bool}^2 plus + and < over numeric pairs; non-trivial = actual type differs from expected type; value evaluations = implementation's op chain on each boundary/random word whose value is representable in the target",
+        distinct_nontrivial=sum(1 for c in cases if (len(set(c["elts"] + [c["exp"]])) > 1 if c["pos"] == "Gen" else c["pos"] == "Multi" or c["act"] != c["exp"])),
+        rule="programs = one @guppy function per (position, actual, expected) over 9 positions x {nat,int,float,bool}^2, 6 binary operators over numeric pairs, Multi = ordered sequences of 2-7 coercing uses of one value (nat, its int alias, an unrelated int) in one basic block, Gen = tuple literal / arguments / struct constructor / array literal / nested tuple meeting one type variable T over all numeric element lists of length 2-3 x expected T; non-trivial = actual type differs from expected type; value evaluations = implementation's op chain on each boundary/random word whose value is representable in the target",
         programs=len(cases), accepted=accepted, rejected=rejected, per_position=hist,
         value_evaluations=value_evals, words=len(ws), words_ge_2p63=sum(1 for w in ws if w >= H64),
         rounding_values=len(mr), rounding_values_above_2p53=sum(1 for v in rvals if abs(v) > 1 << 53), rounding_disagreements=round_bad,
